@@ -5,7 +5,10 @@ import (
 	"go/ast"
 	"go/parser"
 	"go/token"
+	"os"
+	"path/filepath"
 	"strconv"
+	"strings"
 
 	"verif/harness/hx"
 )
@@ -17,6 +20,27 @@ func limiterConsts(path string) (intervalNs int64, burst int, err error) {
 	f, err := parser.ParseFile(fset, path, nil, 0)
 	if err != nil {
 		return 0, 0, err
+	}
+	if pkgs, e := parser.ParseDir(fset, filepath.Dir(path), func(fi os.FileInfo) bool { return !strings.HasSuffix(fi.Name(), "_test.go") }, 0); e == nil {
+		for _, p := range pkgs {
+			for _, pf := range p.Files {
+				for _, d := range pf.Decls {
+					gd, ok := d.(*ast.GenDecl)
+					if !ok || (gd.Tok != token.CONST && gd.Tok != token.VAR) {
+						continue
+					}
+					for _, sp := range gd.Specs {
+						vs, ok := sp.(*ast.ValueSpec)
+						if !ok || len(vs.Values) != len(vs.Names) {
+							continue
+						}
+						for i, n := range vs.Names {
+							pkgConsts[n.Name] = vs.Values[i]
+						}
+					}
+				}
+			}
+		}
 	}
 	found := 0
 	for _, d := range f.Decls {
@@ -35,7 +59,13 @@ func limiterConsts(path string) (intervalNs int64, burst int, err error) {
 			}
 			switch id.Name {
 			case "interval":
-				call, ok := kv.Value.(*ast.CallExpr)
+				val := kv.Value
+				if vid, isID := val.(*ast.Ident); isID {
+					if init, has := pkgConsts[vid.Name]; has {
+						val = init
+					}
+				}
+				call, ok := val.(*ast.CallExpr)
 				if !ok || len(call.Args) != 1 || selName(call.Fun) != "rate.Every" {
 					err = fmt.Errorf("interval is not rate.Every(<duration>)")
 					return false
@@ -77,8 +107,19 @@ func selName(e ast.Expr) string {
 var durations = map[string]int64{"time.Nanosecond": 1, "time.Microsecond": 1e3, "time.Millisecond": 1e6,
 	"time.Second": 1e9, "time.Minute": 60e9, "time.Hour": 3600e9}
 
+// package-level constants/variables of the directory limiter.go lives in (name -> initialiser);
+// filled by limiterConsts so that `burst: limiterBurst` with `const limiterBurst = 4` evaluates too
+var pkgConsts = map[string]ast.Expr{}
+var evalDepth int
+
 func evalConst(e ast.Expr) (int64, error) {
 	switch x := e.(type) {
+	case *ast.Ident:
+		if init, ok := pkgConsts[x.Name]; ok && evalDepth < 8 {
+			evalDepth++
+			defer func() { evalDepth-- }()
+			return evalConst(init)
+		}
 	case *ast.BasicLit:
 		if x.Kind == token.INT {
 			return strconv.ParseInt(x.Value, 0, 64)
